@@ -28,14 +28,16 @@ TRUSTED_BASE = [
 ASSUMPTIONS = [
     "sizes are exact naturals in the model: a container whose element count, capacity or size*100 would wrap a 64-bit usize cannot be allocated (hashmap roundpow2 is modelled mod 2^64 and rehash returns a distinguished Overflow outcome if it wrapped)",
     "allocation never fails (xspanrealloc raises an error otherwise); freshly (re)allocated cells hold unspecified values that the containers never expose",
-    "element equality == and hash of the element type are the functions teqb/khash of the model: for hashmap theorems == is an equivalence on the keys used (no NaN keys) and hash respects it (proved for the derived hashes of hash.nelua: integers, booleans, floats incl. +-0, record{integer,number})",
+    "element equality == and hash of the element type are the functions teqb/khash of the model: the hashmap theorems need == symmetric and transitive (reflexivity is not assumed: NaN keys are covered) and a hash that respects it (proved for the derived hashes of hash.nelua: integers, booleans, floats incl. +-0, record{integer,number})",
     "negative float -> usize conversion in hash.hash wraps like x86-64 gcc (C leaves it undefined); compared with the implementation on every run",
     "correspondence is differential testing of the model against the compiled library, not a proof that model = code",
 ]
 
 NZ = 1 << 40
+NAN = 1 << 41     # tokens >= NAN: float NaN / record with a NaN field: == to nothing, not even themselves
 HM = 2147483647
-KINDS = {1: "vector", 2: "sequence", 3: "list", 4: "hashmap", 5: "hashmap-weakhash", 6: "stringbuilder", 7: "span", 8: "hash"}
+KINDS = {1: "vector", 2: "sequence", 3: "list", 4: "hashmap", 5: "hashmap-weakhash", 6: "stringbuilder", 7: "span", 8: "hash",
+         9: "stringbuilder-limited-allocator", 10: "vector-limited-allocator"}
 TYPES = {0: "integer", 1: "string", 2: "record", 3: "number"}
 OPN = {
     1: {1: "push", 2: "pop", 3: "insert", 4: "remove", 5: "removevalue", 6: "removeif", 7: "resize", 8: "reserve", 9: "clear", 10: "copy", 11: "at", 12: "assign"},
@@ -46,6 +48,8 @@ OPN = {
 }
 OPN[2] = OPN[1]
 OPN[5] = OPN[4]
+OPN[9] = OPN[6]
+OPN[10] = OPN[1]
 MSG = {
     "PopEmpty": "attempt to pop an empty", "Pos": "position out of bounds", "Index": "index out of range",
     "NoSpace": "not enough space in string buffer", "InvalidKey": "attempt to use next for an invalid key in hashmap",
@@ -101,8 +105,12 @@ def canon(t):
     return t - NZ if t >= NZ else t
 
 
+def isnan(t):
+    return t >= NAN
+
+
 def teq(a, b):
-    return canon(a) == canon(b)
+    return not isnan(a) and not isnan(b) and canon(a) == canon(b)
 
 
 def pred(m, r, t):
@@ -238,37 +246,44 @@ class OList:
 
 
 class OMap:
-    """finite map keyed by the == class of the key token; remembers the stored key token"""
+    """finite map keyed by the == class of the key token; remembers the stored key token.
+    A key that is not == to itself (NaN) is never found: every assignment adds a binding, lookups and removals miss."""
 
     def __init__(self):
-        self.d = {}  # canon key -> [stored key token, value]
+        self.d = {}     # canon key -> [stored key token, value]
+        self.nan = []   # [key token, value] bindings with NaN keys
 
     def size(self):
-        return len(self.d)
+        return len(self.d) + len(self.nan)
 
     def pairs(self):
-        return sorted((k, v) for k, v in self.d.values())
+        return sorted([(k, v) for k, v in self.d.values()] + [(k, v) for k, v in self.nan])
 
     def step(self, op, a, b, c):
         d = self.d
         ka = canon(a)
+        an = isnan(a)
+        found = (not an) and ka in d
         if op == 1:
-            if ka in d: d[ka][1] = b
+            if an: self.nan.append([a, b])
+            elif found: d[ka][1] = b
             else: d[ka] = [a, b]
             return "-"
         if op == 2:
-            if ka not in d: d[ka] = [a, 0]
+            if an:
+                self.nan.append([a, 0]); return "0"
+            if not found: d[ka] = [a, 0]
             return str(d[ka][1])
-        if op == 3: return str(d[ka][1]) if ka in d else "nil"
-        if op == 4: return "1" if ka in d else "0"
-        if op == 5: return "1,%d" % d[ka][1] if ka in d else "0,0"
-        if op == 6: return str(d.pop(ka)[1]) if ka in d else "0"
+        if op == 3: return str(d[ka][1]) if found else "nil"
+        if op == 4: return "1" if found else "0"
+        if op == 5: return "1,%d" % d[ka][1] if found else "0,0"
+        if op == 6: return str(d.pop(ka)[1]) if found else "0"
         if op == 7:
-            if ka in d:
+            if found:
                 d.pop(ka); return "1"
             return "0"
         if op == 8:
-            d.clear(); return "-"
+            d.clear(); self.nan = []; return "-"
         if op in (9, 10): return "-"
         if op == 11:
             vis = self.pairs()
@@ -276,27 +291,42 @@ class OMap:
                 d.pop(k)
             return ("v", vis)
         if op == 12:
-            if ka not in d: raise Violation("InvalidKey")
+            if not found: raise Violation("InvalidKey")
             return ("next", ka)
         if op == 13: return ("next", None)
         if op == 14:
             return "p" + "".join("," + (str(d[canon(t)][1]) if canon(t) in d else "nil") for t in range(a, b + 1))
         if op == 15:
             for kv in d.values(): kv[1] += a
+            for kv in self.nan: kv[1] += a
             return "-"
-        if op == 16: return ("v", self.pairs())
+        if op == 16:
+            # the traversal calls next(m, k) with every visited key: a NaN key is an invalid key for next
+            if self.nan: raise Violation("InvalidKey")
+            return ("v", self.pairs())
         raise KeyError(op)
 
 
 class OSb:
-    def __init__(self):
+    """byte string; with allow_fail (an allocator that may refuse) an operation may instead report failure,
+    in which case the contents must be untouched"""
+
+    def __init__(self, allow_fail=False):
         self.l = []
+        self.allow_fail = allow_fail
+        self.failures = 0
 
     def size(self):
         return len(self.l)
 
     def step(self, op, a, b, c, impl_ret=None):
         l = self.l
+        if self.allow_fail and impl_ret is not None:
+            failed = (op == 1 and a % 41 > 0 and impl_ret == "0,0") or (op == 2 and b > 0 and impl_ret == "0") or \
+                     (op == 5 and impl_ret == "0") or (op == 3 and impl_ret == "0,0") or (op == 9 and impl_ret == "0")
+            if failed:
+                self.failures += 1
+                return impl_ret          # reported failure: contents must be unchanged (checked by the caller)
         if op == 1:
             n = a % 41
             l.extend(sbbytes(a, n)); return "1,%d" % n
@@ -347,7 +377,9 @@ class OSpan:
 
 
 def make_oracle(kind, n=0):
-    return {1: OVec, 2: OSeq, 3: OList, 4: OMap, 5: OMap, 6: OSb}[kind]() if kind != 7 else OSpan(n)
+    if kind == 9:
+        return OSb(allow_fail=True)
+    return {1: OVec, 2: OSeq, 3: OList, 4: OMap, 5: OMap, 6: OSb, 10: OVec}[kind]() if kind != 7 else OSpan(n)
 
 
 # ------------------------------------------------------------------ token universes
@@ -356,9 +388,9 @@ def universe(rng, typ, kind, size):
     values that collide in every small bucket array"""
     u = set()
     if typ == 3:
-        u.update([0, NZ])
+        u.update([0, NZ, NAN])
     if typ == 2:
-        u.update([0, NZ, 4, NZ + 4, 1, 2, 3])
+        u.update([0, NZ, 4, NZ + 4, 1, 2, 3, NAN, NAN + 1])
     base = rng.choice([0, 0, 1, -7, 100])
     while len(u) < size:
         r = rng.random()
@@ -450,10 +482,10 @@ def gen_history(rng, kind, typ, nsteps, maxsize, big=False):
                 else: emit(2, pick())
         elif kind in (4, 5):
             if n >= maxsize: grow = False
-            live = [kv[0] for kv in o.d.values()]
+            live = [kv[0] for kv in o.d.values()]       # findable keys (NaN keys are never found: next(k) would trap)
             anykey = lambda: (rng.choice(live) if live and rng.random() < 0.6 else pick())
             def alias(k):  # the other spelling of the same key (negative zero), when there is one
-                if typ in (2, 3) and canon(k) >= 0 and canon(k) % 4 == 0 and (typ == 2 or canon(k) == 0) and rng.random() < 0.5:
+                if typ in (2, 3) and not isnan(k) and canon(k) >= 0 and canon(k) % 4 == 0 and (typ == 2 or canon(k) == 0) and rng.random() < 0.5:
                     return canon(k) + NZ if k < NZ else canon(k)
                 return k
             if grow:
@@ -467,7 +499,7 @@ def gen_history(rng, kind, typ, nsteps, maxsize, big=False):
                 elif r < 0.56: emit(10, rng.choice([0, 0, 0, 1, n, 2 * n, 64]))
                 elif r < 0.62 and live: emit(12, alias(rng.choice(live)))
                 elif r < 0.65: emit(13)
-                elif r < 0.72: emit(16)
+                elif r < 0.72 and not o.nan: emit(16)
                 elif r < 0.78:
                     lo = min(univ[:8]) ; emit(14, lo, lo + rng.randrange(0, 12))
                 elif r < 0.82: emit(15, rng.randrange(1, 5))
@@ -477,44 +509,64 @@ def gen_history(rng, kind, typ, nsteps, maxsize, big=False):
     return ops
 
 
-def gen_sb_history(rng, nsteps, maxsize):
-    """stringbuilder histories are generated without feedback on span sizes: every op is valid for every state
-    (rollback amounts are clamped by an upper bound of the size that does not depend on the implementation)"""
+def gen_sb_history(rng, nsteps, maxsize, limit=None):
+    """stringbuilder histories are generated without feedback from the implementation: the generator tracks a
+    lower bound `lo` and an upper bound `hi` of the size, and only rolls back amounts <= lo.  With an allocator
+    refusing requests of `limit` bytes or more, a growing operation is only known to succeed when the fallback
+    request (size+1 bytes) is below the limit; otherwise `lo` is left alone."""
     ops = []
-    lo = 0          # lower bound of the current size
+    lo = hi = 0
     ths = thresholds(6, maxsize)
     target = rng.choice(ths)
+
+    def grown(x):
+        nonlocal lo, hi
+        if limit is None or hi + x + 1 < limit:
+            lo += x
+        hi += x
+
+    def resized(n):
+        nonlocal lo, hi
+        if limit is None or n + 1 < limit:
+            lo = hi = n
+        else:
+            lo, hi = min(lo, n), max(hi, n)
+
     for _ in range(nsteps):
         r = rng.random()
         if rng.random() < 0.05:
             target = rng.choice(ths)
-        if lo < target and r < 0.7:
+        if hi < target and r < 0.7:
             q = rng.random()
             if q < 0.4:
-                t = rng.randrange(0, 500); ops.append((1, t, 0, 0)); lo += t % 41
+                t = rng.randrange(0, 500); ops.append((1, t, 0, 0)); grown(t % 41)
             elif q < 0.6:
-                n = rng.choice([0, 1, 1, 2, 5, max(0, target - lo), max(0, target - lo - 1)])
-                ops.append((2, rng.randrange(1, 256), n, 0)); lo += n
+                n = rng.choice([0, 1, 1, 2, 5, max(0, target - hi), max(0, target - hi - 1)])
+                ops.append((2, rng.randrange(1, 256), n, 0)); grown(n)
             elif q < 0.85:
-                a = rng.choice([0, 1, 5, 16, max(0, target - lo)]); b = rng.choice([0, 1, 3, 15, 16, 40])
-                ops.append((3, a, b, rng.randrange(0, 500))); lo += min(a, b)   # at least min(a,b) bytes are written
+                a = rng.choice([0, 1, 5, 16, max(0, target - hi)]); b = rng.choice([0, 1, 3, 15, 16, 40])
+                ops.append((3, a, b, rng.randrange(0, 500)))
+                # at least min(a,b) and at most b bytes are written when the prepare succeeds
+                if limit is None or hi + max(a, b) + 1 < limit:
+                    lo += min(a, b)
+                hi += b
             else:
-                n = min(maxsize, lo + rng.randrange(0, 20)); ops.append((5, n, 0, 0)); lo = n
+                n = min(maxsize, hi + rng.randrange(0, 20)); ops.append((5, n, 0, 0)); resized(n)
         else:
             q = rng.random()
             if q < 0.3:
-                n = rng.choice([0, min(1, lo), lo, rng.randrange(0, lo + 1)]); ops.append((4, n, 0, 0)); lo -= n
+                n = rng.choice([0, min(1, lo), lo, rng.randrange(0, lo + 1)]); ops.append((4, n, 0, 0)); lo -= n; hi -= n
             elif q < 0.5:
-                n = rng.randrange(0, lo + 1); ops.append((5, n, 0, 0)); lo = n
+                n = rng.randrange(0, lo + 1); ops.append((5, n, 0, 0)); lo = hi = n
             elif q < 0.62: ops.append((9, rng.choice([0, 1, 7, 100]), 0, 0))
             elif q < 0.7:
-                ops.append((6, 0, 0, 0)); lo = 0
-            elif q < 0.78:
-                ops.append((7, 0, 0, 0)); lo = 0
+                ops.append((6, 0, 0, 0)); lo = hi = 0
+            elif q < 0.78 and limit is None:
+                ops.append((7, 0, 0, 0)); lo = hi = 0
             else:
-                t = rng.randrange(0, 500); ops.append((1, t, 0, 0)); lo += t % 41
-        if lo > maxsize:
-            ops.append((5, maxsize // 2, 0, 0)); lo = maxsize // 2
+                t = rng.randrange(0, 500); ops.append((1, t, 0, 0)); grown(t % 41)
+        if hi > maxsize:
+            n = min(lo, maxsize // 2); ops.append((5, n, 0, 0)); lo = hi = n
     return ops
 
 
@@ -641,7 +693,7 @@ def check_step(kind, o, op, a, b, c, line, dump):
     """evaluate the property oracle on one output line (implementation's, or the abstract spec's with the
     capacity fields missing). Returns None or a message."""
     ret, nums, body = parse_line(line)
-    if kind == 6:
+    if kind in (6, 9):
         exp = o.step(op, a, b, c, impl_ret=ret)
     else:
         exp = o.step(op, a, b, c)
@@ -663,11 +715,11 @@ def check_step(kind, o, op, a, b, c, line, dump):
                 except ValueError:
                     return "unparsable next result %r" % ret
                 ck = canon(k)
-                if ck not in o.d or o.d[ck][1] != v:
+                if (k, v) not in o.pairs():
                     return "next returned %s which is not a binding of the map" % ret
                 if exp[1] is not None and ck == exp[1]:
                     return "next(k) returned k itself"
-            elif exp[1] is None and o.d:
+            elif exp[1] is None and o.size():
                 return "next() says the non-empty map is empty"
     elif kind == 7:
         if exp[0] == "at":
@@ -701,7 +753,7 @@ def check_step(kind, o, op, a, b, c, line, dump):
             except ValueError:
                 return "unparsable bindings %r" % body
             if got != want: return "pairs() yields %s, abstract map is %s" % (got, want)
-    elif kind == 6:
+    elif kind in (6, 9):
         want = "".join("%02x" % x for x in o.l)
         got = body[0] if body else ""
         if got != want: return "view() = %s, abstract byte string %s" % (got, want)
@@ -801,6 +853,11 @@ def correspond(ctx):
         maxsize = rng.choice([130, 200, 400, 800]) if kind != 5 else 100
         ops = gen_sb_history(rng, nsteps, 1100) if kind == 6 else gen_history(rng, kind, typ, nsteps, maxsize, big=True)
         hist.append({"kind": kind, "typ": typ, "n": 0, "ops": ops, "dump": 1, "stream": "long"})
+    # stringbuilder over an allocator that refuses requests of `limit` bytes or more
+    for i in range(ctx.scale(80, 3000)):
+        limit = rng.choice([17, 24, 33, 40, 65, 70, 100, 129, 200, 300])
+        ops = gen_sb_history(rng, rng.choice([40, 80, 150]), rng.choice([40, 70, 140, 300]), limit=limit)
+        hist.append({"kind": 9, "typ": 0, "n": limit, "ops": ops, "dump": 0, "stream": "allocation-failure"})
     # span: valid accesses
     for i in range(ctx.scale(20, 400)):
         n = rng.randrange(0, 12)
@@ -820,7 +877,7 @@ def correspond(ctx):
     if rc2 != 0 or len(ml) < nexp:
         ctx.violation("model-driver-run", "harness", "model driver rc=%s, %d of %d lines: %s" % (rc2, len(ml), nexp, merr[-400:]), failing_input=False)
         return {"evaluations": 0}
-    stats = {"kinds": {}, "types": {}, "ops": {}, "streams": {}, "history_len": {}, "growth_events": 0, "max_len": {}, "traps": {}}
+    stats = {"kinds": {}, "types": {}, "ops": {}, "streams": {}, "history_len": {}, "growth_events": 0, "max_len": {}, "traps": {}, "nan_value_ops": 0}
     nontrivial = set()
     n_oracle = n_mismatch = n_spec = 0
     evaluations = 0
@@ -831,11 +888,16 @@ def correspond(ctx):
     def bump(d, k, by=1):
         d[k] = d.get(k, 0) + by
 
+    sb_failures = 0
+    prev_o = None
     for h in hist:
+        if prev_o is not None and isinstance(prev_o, OSb):
+            sb_failures += prev_o.failures
         if pos_dead:
             break
         kind, typ, ops, dump = h["kind"], h["typ"], h["ops"], h["dump"]
         o = make_oracle(kind, h["n"])
+        prev_o = o
         osp = make_oracle(kind, h["n"])
         bump(stats["kinds"], KINDS[kind]); bump(stats["streams"], h["stream"])
         if kind not in (5, 6, 7): bump(stats["types"], TYPES[typ])
@@ -855,6 +917,8 @@ def correspond(ctx):
                 continue
             evaluations += 1
             bump(stats["ops"], "%s.%s" % (KINDS[kind].split("-")[0], OPN[kind].get(op, op)))
+            if kind not in (6, 7) and (isnan(a) or (isnan(b) and kind in (1, 2, 3))):
+                bump(stats, "nan_value_ops")
             mmodel, _, mspec = mline.partition(" || ")
             if iline is None:
                 iline = "<no output>"
@@ -1004,6 +1068,54 @@ def correspond(ctx):
                 n_mismatch += 1
                 ctx.violation("model-mismatch:violating-prefix.%s" % KINDS[kind], "correspondence", "prefix of a violating history differs between model and implementation",
                               detail={"history": describe(kind, typ, ops, len(ops) - 1), "model": ml2[:len(ops)], "implementation": il2[:len(ops)]}, failing_input=False)
+    # ---------------- vector over an allocator refusing requests of `limit` bytes or more: the operation whose growth
+    # needs that much must raise 'out of memory' (xspanrealloc), everything before it behaves as usual
+    n_oom = 0
+    for i in range(ctx.scale(30, 600)):
+        limit = rng.choice([16, 24, 64, 100, 128, 520, 1024])
+        ops = gen_history(rng, 1, 0, rng.choice([20, 60, 120]), rng.choice([9, 17, 33, 70]))
+        lines = ["-1 0 0 0"] + fmt_ops(10, 0, ops, limit)
+        text = "\n".join(lines) + "\n"
+        rc1, iout, ierr = vlib.sh([drv_impl], input=text, timeout=60)
+        rc2, mout, merr = vlib.sh([drv_model], input=text, timeout=60)
+        il2 = [x for x in iout.split("\n") if x][1:]
+        ml2 = [x.partition(" || ")[0] for x in mout.split("\n") if x][1:]
+        n_oom += 1
+        evaluations += 1
+        stop = None
+        for k, ln in enumerate(ml2):
+            _, nums, _ = parse_line(ln)
+            if len(nums) >= 2 and int(nums[1]) * 8 >= limit:
+                stop = k
+                break
+        bump(stats["traps"], "vector:OutOfMemory" if stop is not None else "vector:limit-not-reached")
+        o = OVec()
+        bad = None
+        upto = len(ops) if stop is None else stop
+        for k in range(upto):
+            if k >= len(il2):
+                bad = (k, "the implementation stopped (exit status %s: %s) although no allocation of %d bytes or more is needed" % (rc1, ierr.strip()[-120:], limit))
+                break
+            msg = check_step(1, o, ops[k][0], ops[k][1], ops[k][2], ops[k][3], il2[k], 0)
+            if msg is None and il2[k] != ml2[k]:
+                n_mismatch += 1
+                ctx.violation("model-mismatch:vector-limited-allocator", "correspondence", "step %d: model '%s', implementation '%s'" % (k, ml2[k][:200], il2[k][:200]),
+                              detail={"history": describe(10, 0, ops, k), "limit": limit}, failing_input=False)
+                break
+            if msg is not None:
+                bad = (k, msg)
+                break
+        if bad is None and stop is not None:
+            if len(il2) > stop:
+                bad = (stop, "needs a block of %d bytes or more from an allocator that refuses them, but went on and printed '%s'" % (limit, il2[stop][:200]))
+            elif rc1 == 0 or "out of memory" not in ierr:
+                bad = (stop, "was stopped, but not with 'out of memory': exit status %s, %s" % (rc1, ierr.strip()[-200:]))
+        if bad is not None:
+            n_oracle += 1
+            k, msg = bad
+            ctx.violation(history_key(10, 0, ops, k, limit), "oracle", "vector over a limited allocator (limit %d bytes), step %d (%s %d %d %d): %s" %
+                          (limit, k, OPN[1].get(ops[k][0], ops[k][0]), ops[k][1], ops[k][2], ops[k][3], msg),
+                          detail={"history": describe(10, 0, ops, k), "replay": "printf '%s\\n' | <driver>" % "\\n".join(lines[:k + 3])})
     return {
         "evaluations": evaluations,
         "distinct_nontrivial": len(nontrivial),
@@ -1012,6 +1124,8 @@ def correspond(ctx):
         "distribution": stats,
         "histories": len(hist),
         "violating_histories": n_viol,
+        "out_of_memory_histories": n_oom,
+        "stringbuilder_reported_allocation_failures": sb_failures,
         "hash_cases": n_hash,
         "oracle_failures": n_oracle,
         "model_mismatches": n_mismatch,
@@ -1025,7 +1139,6 @@ UNPROVED = [
     "vector/sequence __convert (initialisation from arrays), sequence:unpack, destroy/__close: not modelled",
     "stringbuilder write of non-byte arguments (integer/float/boolean formatting), writef/formatarg, __tostring: not modelled (strconv/strprintf are C13/C14 territory)",
     "hash.hash for pointers, unions, arrays, spans and records with __hash: not modelled; the string hash (hash.long) is modelled and corresponds, its coherence is trivial (byte-wise equality)",
-    "hashmap with NaN float keys: == is not reflexive there, outside the theorems' hypotheses (never generated)",
-    "allocation failure paths (stringbuilder grow returning false, xspanrealloc raising an error): not modelled",
+    "allocation failure: modelled and proved for stringbuilder (sb_step_a); for vector only the correspondence stream checks that the growth needing a refused block raises 'out of memory' (sequence/hashmap/list use the same xspanrealloc / new and are not exercised with a refusing allocator)",
     "independence of the hashmap's observable behaviour from the hash values is not a theorem; the model hashes tokens for non-integer key types and the correspondence shows equal observables",
 ]
